@@ -1006,6 +1006,13 @@ class Enum(Generic, PrimitiveType):
     for v in other.values:
       if v not in self.values:
         return False
+      # `in` compares with ==; `v` must also pass the type check of this Enum
+      # (1.0 == 1, but an int Enum refuses 1.0).
+      if (v is not None
+          and self.value_type is not None
+          and not pg_inspect.is_instance(v, self.value_type)
+          and type_conversion.get_converter(type(v), self.value_type) is None):
+        return False
     return True
 
   def _annotate(self) -> typing.Any:
